@@ -242,19 +242,28 @@ pub fn ops_short(ops: &[Op]) -> String {
 /// freed, and a junk buffer of the same size is allocated as soon as the borrowing call returns.
 pub struct Bufs {
     pub scribble: bool,
+    /// scribble but keep the allocation alive (deterministic native detection of re-reads)
+    pub keep_alive: bool,
     pub kept: Vec<Vec<u8>>,
     pub junk: Vec<Vec<u8>>,
     pub bytes_lent: u64,
 }
 impl Bufs {
     pub fn new(scribble: bool) -> Bufs {
-        Bufs { scribble, kept: Vec::new(), junk: Vec::new(), bytes_lent: 0 }
+        Bufs { scribble, keep_alive: false, kept: Vec::new(), junk: Vec::new(), bytes_lent: 0 }
     }
     pub fn with<R>(&mut self, img: &Img, f: impl FnOnce(&mut Bufs, &[u8]) -> R) -> R {
         let mut v = img.make();
         self.bytes_lent += v.len() as u64;
         let r = f(self, &v);
-        if self.scribble {
+        if self.scribble && self.keep_alive {
+            for b in v.iter_mut() {
+                *b = !*b;
+            }
+            std::hint::black_box(&v);
+            self.junk.push(Vec::new());
+            self.kept.push(v);
+        } else if self.scribble {
             for b in v.iter_mut() {
                 *b = !*b;
             }
